@@ -7,6 +7,7 @@ out=selftest/detection_matrix.txt
 : > $out
 for d in seeded/*/; do
   id=$(basename $d); p=${id:0:3}
+  cw=$(jq -r '.check_with // empty' $d/meta.json 2>/dev/null); [ -n "$cw" ] && p=$cw
   if grep -q "NOT REPORTED, by decision" $d/meta.json; then echo "$id $p (not reported by decision)" >> $out; continue; fi
   line="$id $p"
   for s in $seeds; do
